@@ -144,6 +144,16 @@ def generate(tier):
                         if cfg == 'M' and not o[3] and fl.n > 1:
                             continue
                         cases.append(build(sh, [o], cfg, mode))
+        # wide: 5-6 fields, and a 5-variant enum in which one variant's markers move through every position
+        for fl in (S.Fields('t', 5), S.Fields('n', 6)):
+            for o in variant_options(fl, with_mut):
+                if cfg == 'M' and not o[3]:
+                    continue
+                cases.append(build(S.Shape('struct', [fl]), [o], cfg, 'v'))
+                if cfg != 'M':
+                    sh5 = S.Shape('enum', [S.Fields('t', 1), S.Fields('n', 2), S.Fields('t', 3), fl, S.Fields('n', 1)])
+                    fixed = [(0, 0 if with_mut else None, False, False), (1, 0 if with_mut else None, True, with_mut), (2, 1 if with_mut else None, True, with_mut)]
+                    cases.append(build(sh5, fixed + [o] + [(0, 0 if with_mut else None, True, with_mut)], cfg, 'v'))
         # two (three) variants with independent designations
         small = [S.Fields(s, n) for n in (1, 2) for s in 'tn'] + ([S.Fields('t', 3)] if tier != 'quick' else [])
         for combo in itertools.product(small, repeat=2):
